@@ -7,6 +7,8 @@ Line-protocol driver for the aggregate / disaggregate / arip model (property C12
   aripsys <kkt 0|1> <nLow> <nWithin> <rho> <const> sigma… agg… low… target…   ->  F | C   (QMat text)
   arip    <kkt 0|1> …same…                                                     ->  x_0 … x_{nHigh-1}
   aripmv  <kkt 0|1> variant | variant | …   (each variant as for arip)          ->  x… | x… | …
+  xagg <method> <discard 0|1> v…  (v: nan | inf | -inf | num/den)   one within-period group over extended values
+  aripform <form string> <aggregation string> <rho> <n> <w>   ->  form ; sigma… ; aggregation vector…
   opt  <discard_missing -|0|1> <remove_missing -|0|1> <method -|name> <F> <T> <start> <nv> <n> v…   keyword resolution
 
 Series reply: `<freq> <start|none> <nrows> v…`; values are `nan` or `num/den`.
@@ -108,6 +110,21 @@ def step (line : String) : String :=
     (match parts.mapM parseArip? with
       | some vs => " | ".intercalate ((aripSolveAll vs (kkt == "1")).map (showR (fun (x : List Rat) => " ".intercalate (x.map showRat))))
       | none => "bad-op")
+  | "xagg" :: m :: disc :: vals =>
+    let px : String → Option XVal := fun x =>
+      if x = "nan" then some .nan else if x = "inf" then some .pinf else if x = "-inf" then some .ninf else (parseRat? x).map .fin
+    let sx : XVal → String := fun x => match x with | .nan => "nan" | .pinf => "inf" | .ninf => "-inf" | .fin q => showRat q
+    (match Method.ofString? m, vals.mapM px with
+      | some m, some w => sx (xAggWithin (disc == "1") m w)
+      | _, _ => "bad-op")
+  | ["aripform", form, agg, rho, n, w] =>
+    (match AripForm.ofString? form, parseRat? rho, n.toNat?, w.toNat? with
+      | some f, some rho, some n, some w =>
+        (match aripAggVector? agg w with
+          | some av => toString (repr f) ++ " ; " ++ " ".intercalate ((f.sigma (f.rhoOf rho) n).map showRat) ++ " ; " ++ " ".intercalate (av.map showRat)
+          | none => "err:bad")
+      | none, _, _, _ => "err:bad"
+      | _, _, _, _ => "bad-op")
   | "aripsys" :: kkt :: rest =>
     (match parseArip? rest with
       | some a => showR (fun (p : QMat × QMat) => p.1.toText ++ " | " ++ p.2.toText) (aripSystem a (kkt == "1"))
